@@ -219,7 +219,7 @@ class KvsDriver:
 
 
 TKEYS = ["a", "b", "d/e"]
-TRANGE = {1: range(0, 25), 2: range(5, 35), 3: range(100, 125), 4: range(3, 7)}
+TRANGE = {1: range(0, 25), 2: range(5, 35), 3: range(100, 125), 4: range(3, 7), 5: range(24, 31)}
 
 
 def run_tables(ev, vd, thorough, seed):
